@@ -43,18 +43,19 @@ PROPERTY = "C17"
 ENCODED = [
     mwm._MaxRequestBytesMiddleware.process_request,
     mwm._CompressionMiddleware.process_request,
+    mwm._DrainRequestMiddleware.process_response,
     rsp._get_request_stream,
     cod.decompress,
     cod._decompress_body_gzip,
     cod._decompress_body_zstd,
 ]
 
-_NB = pick(6, 9)  # wire body length bound
-_NP = pick(6, 9)  # decoded length bound
+_NB = pick(4, 8)  # wire body length bound
+_NP = pick(4, 8)  # decoded length bound
 
 BOUNDS = (
     f"wire body = any bytes len<={_NB}; Content-Length None or 0..{_NB + 2}; cap 0..{_NB + 1} (or unset); decoded plaintext any bytes len<={_NP}; "
-    "Content-Encoding = absent / blank / codec and non-codec tokens in 4 case variants with arbitrary 1-char padding / any string len<=3; "
+    "Content-Encoding = absent / blank / codec and non-codec tokens in 4 case variants with optional SP/HTAB / codec names with any one glued character / any string len<=%d; " % pick(2, 3) +
     "decode set = every subset of {zstd, gzip}; truncated frames: plaintext len<=%d cut anywhere (C18 codec stubs, chunk 3)" % c18._N
 )
 OUTSIDE = (
@@ -110,8 +111,10 @@ def _pipeline(app: object) -> list[tuple[str, object, list[str]]]:
     return out
 
 
-_PIPE = _pipeline(_build_app(_SENTINEL))
 _PIPE_NOCAP = _pipeline(_build_app(None))
+_APP = _build_app(_SENTINEL)
+_PIPE = _pipeline(_APP)
+_DRAIN = [m for m in _APP._unprepared_middleware if isinstance(m, mwm._DrainRequestMiddleware)]  # type: ignore[attr-defined]
 _COMP = [m for k, m, _ in _PIPE if k == "comp"]
 _MAXMW = [m for k, m, _ in _PIPE if k == "max"]
 _EXEMPT = tuple(p for m in _MAXMW for p in m._exempt_prefixes)  # type: ignore[attr-defined]
@@ -156,7 +159,7 @@ class _Dec:
 
     plain: bytes = b""
     undecodable = False
-    exc: BaseException = ValueError("corrupt")
+    exc_idx = 0
     calls = 0
     enc: object = None
     data: object = None
@@ -167,7 +170,7 @@ def _decompress_contract(encoding: object, data: object, *, max_output_size: int
     _Dec.calls += 1
     _Dec.enc, _Dec.data, _Dec.cap = encoding, data, max_output_size
     if _Dec.undecodable:
-        raise _Dec.exc
+        raise _CORRUPT_EXCS[_Dec.exc_idx]
     if max_output_size is not None and len(_Dec.plain) > max_output_size:
         raise cod.DecompressionLimitExceeded("Decompressed output exceeds max_output_size")
     return _Dec.plain
@@ -195,16 +198,28 @@ class _Ctx:
     pass
 
 
+_MODEL_ERRORS: list[str] = []  # a stub used outside its model, even if the code under test swallowed the exception
+
+
+def _model_error(msg: str) -> HarnessModelError:
+    _MODEL_ERRORS.append(msg)
+    return HarnessModelError(msg)
+
+
 class _Stream:
+    """Falcon BoundedStream contract: read(n) -> at most n of the remaining bytes as ONE bytes object,
+    read()/read(-1)/read(None) -> all remaining bytes as one object, exhaust() -> discards the rest in
+    fixed-size chunks (nothing larger than the library's chunk is ever materialised)."""
+
     def __init__(self, data: bytes, end: int) -> None:
         self._data = data
         self._end = end
         self._pos = 0
-        self.pulled = 0
-        self.biggest_request = 0  # 0 = never asked; -1 = asked for "everything"
+        self.pulled = 0  # bytes turned into Python objects by read()
+        self.biggest = 0  # largest single object produced by read()
 
     def __getattr__(self, name: str) -> object:
-        raise HarnessModelError(f"stream stub has no {name}")
+        raise _model_error(f"stream stub has no {name}")
 
     def read(self, size: int | None = None) -> bytes:
         avail = self._end - self._pos
@@ -215,7 +230,14 @@ class _Stream:
         out = self._data[self._pos : self._pos + k]
         self._pos += k
         self.pulled += k
+        if k > self.biggest:
+            self.biggest = k
         return out
+
+    def exhaust(self, chunk_size: int = 64 * 1024) -> None:
+        if chunk_size <= 0:
+            raise _model_error("exhaust chunk size")
+        self._pos = self._end
 
 
 class _Req:
@@ -250,6 +272,7 @@ def _mk_req(path: str, data: bytes, has_cl: bool, cl: int, dechunked: bool, ce: 
 def _run(pipe: list, req: _Req) -> tuple[int, object]:
     """(status, bytes handed to the RPC layer) — status 200 means 'reached the RPC layer'."""
     _Dec.calls = 0
+    del _MODEL_ERRORS[:]
     try:
         for kind, m, _ in pipe:
             if kind == "max":
@@ -340,6 +363,177 @@ def _replay_identity(args: dict) -> str | None:
     return None
 
 
+def _real_pipeline_pull(app: object, method: str, path: str, body: bytes, headers: dict) -> tuple[str, int]:
+    """The factory's two middleware instances (real code, real Falcon request, real codecs) on one request:
+    (outcome, bytes pulled from wsgi.input by them)."""
+    env = falcon.testing.create_environ(path=path, method=method, headers=headers, body=body)
+    inp = _CountingInput(body)
+    env["wsgi.input"] = inp
+    req = falcon.Request(env)
+    outcome = "passed on"
+    try:
+        for _kind, m, _ in _pipeline_any(app):
+            m.process_request(req, falcon.Response())  # type: ignore[attr-defined]
+    except falcon.HTTPError as e:
+        outcome = str(e.status)
+    return outcome, inp.pulled
+
+
+def _pipeline_any(app: object) -> list:
+    return [("", m, []) for m in app._unprepared_middleware if isinstance(m, (mwm._MaxRequestBytesMiddleware, mwm._CompressionMiddleware))]  # type: ignore[attr-defined]
+
+
+class _DechunkedRequest(falcon.Request):
+    """A WSGI stack that hands the de-chunked body through ``bounded_stream`` (no Content-Length)."""
+
+    @property
+    def bounded_stream(self):  # type: ignore[no-untyped-def, override]
+        return self.env["wsgi.input"]
+
+
+def _real_request(cap: int | None, decode: tuple | None, path: str, body: bytes, cl: int | None, dechunked: bool, ce: str | None) -> tuple[int, bytes | None, int]:
+    """Real middlewares (factory instances for this cap), real Falcon request, real codecs, real _get_request_stream."""
+    app = _build_app(cap)
+    env = falcon.testing.create_environ(path=path, method="POST", body=body, headers={} if ce is None else {"Content-Encoding": ce})
+    if cl is None:
+        env.pop("CONTENT_LENGTH", None)
+    else:
+        env["CONTENT_LENGTH"] = str(cl)
+    inp = _CountingInput(body)
+    env["wsgi.input"] = inp
+    req = (_DechunkedRequest if (cl is None and dechunked) else falcon.Request)(env)
+    try:
+        for _k, m, _ in _pipeline_any(app):
+            if decode is not None and isinstance(m, mwm._CompressionMiddleware):
+                m._decode = decode
+            m.process_request(req, falcon.Response())  # type: ignore[attr-defined]
+        handed = rsp._get_request_stream(req).read()
+    except falcon.HTTPContentTooLarge:
+        return 413, None, inp.pulled
+    except falcon.HTTPUnsupportedMediaType:
+        return 415, None, inp.pulled
+    except falcon.HTTPBadRequest:
+        return 400, None, inp.pulled
+    return 200, bytes(handed), inp.pulled
+
+
+_K = 200  # replays add K to every length: relations between sizes and the cap are kept, real frames fit
+
+
+def _mismatch(what: str, got: tuple[int, bytes | None, int], want_status: tuple[int, ...], want_body: bytes | None, cap: int | None) -> str | None:
+    status, handed, pulled = got
+    if cap is not None and pulled > cap + 1:
+        return f"{what}: the request middlewares read {pulled} bytes of body (cap {cap})"
+    if status not in want_status:
+        return f"{what}: answered {status if status != 200 else 'by passing the body on'}, expected {'/'.join(map(str, want_status))}"
+    if status == 200 and want_body is not None and handed != want_body:
+        return f"{what}: the RPC layer received {len(handed or b'')} bytes that are not the client's {len(want_body)}-byte request"
+    return None
+
+
+def _replay_passthrough(args: dict) -> str | None:
+    data, has_cl, dech = args["data"] + b"\x00" * _K, args["has_cl"], args["dechunked"]
+    cl, cap = args["cl"] + _K, args["cap"] + _K
+    ce = _BLANKS[args["blank"]] if "blank" in args else args["ce_text"]
+    wire = min(cl, len(data)) if has_cl else (len(data) if dech else 0)
+    got = _real_request(cap, None, _RPC_PATH, data, cl if has_cl else None, dech, ce)
+    too_big = (cl > cap) if has_cl else (wire > cap)
+    what = f"max_request_bytes={cap}, {len(data)}-byte body, Content-Length {cl if has_cl else 'absent'}, Content-Encoding {ce!r}"
+    return _mismatch(what, got, (413,) if too_big else (200,), data[:wire], cap)
+
+
+def _replay_header(header: str, decode: tuple, codec: str | None, want: tuple[int, ...]) -> str | None:
+    enc = _ENC_BY_NAME[codec] if codec else _G
+    body = cod.compress(enc, _PLAIN)
+    got = _real_request(_SENTINEL, decode, _RPC_PATH, body, len(body), False, header)
+    what = f"Content-Encoding {header!r} on a {enc.value}-compressed body, decodable codecs {[e.value for e in decode]}"
+    r = _mismatch(what, got, want, _PLAIN, _SENTINEL)
+    if r is None and want == (200,):
+        # the configured cap reaches the decoder: 5000 zero bytes behind a 1000-byte cap
+        bomb = cod.compress(enc, b"\x00" * 5000)
+        r = _mismatch(what + " decoding to 5000 bytes, max_request_bytes=1000", _real_request(1000, decode, _RPC_PATH, bomb, len(bomb), False, header), (413,), None, 1000)
+    return r
+
+
+def _replay_token(args: dict) -> str | None:
+    texts, codec = _TOKENS[args["which"]]
+    header = _OWS[args["lp"]] + texts[args["variant"]] + _OWS[args["rp"]]
+    decode = _decode_set(args["dz"], args["dg"]) if codec is not None else _DEC_SETS[3]
+    ok = codec is not None and _ENC_BY_NAME[codec] in decode
+    return _replay_header(header, decode, codec, (200,) if ok else (415,))
+
+
+def _replay_glued(args: dict) -> str | None:
+    name = _CODEC_NAMES[args["which"]]
+    text = name.upper() if args["upper"] else name
+    pad = args["pad"]
+    header = (pad + text) if args["left"] else (text + pad)
+    want = (200,) if pad in (" ", "\t") else ((200, 415) if pad.strip() == "" else (415,))
+    try:
+        header.encode("latin-1")
+    except UnicodeEncodeError:
+        return None  # not expressible as a WSGI header value
+    return _replay_header(header, _DEC_SETS[3], name, want)
+
+
+def _replay_freeform(args: dict) -> str | None:
+    ce = args["ce"]
+    try:
+        ce.encode("latin-1")
+    except UnicodeEncodeError:
+        return None
+    got = _real_request(_SENTINEL, _DEC_SETS[3], _RPC_PATH, _WIRE, len(_WIRE), False, ce)
+    return _mismatch(f"Content-Encoding {ce!r}", got, (200,) if ce.strip() == "" else (415,), _WIRE, _SENTINEL)
+
+
+def _replay_decode(args: dict) -> str | None:
+    # the counterexample itself first, then its neighbours with the same framing
+    # (the stubbed failure may sit in what the decoder was *given* — codec, bytes, cap — which only shows
+    # through the decoded size: also try a plaintext one byte over the cap, and a decodable body)
+    over = b"\x00" * (args["cap"] + 1)
+    for plain0, und in ((args["plain"], args["undecodable"]), (b"", args["undecodable"]), (args["plain"], False), (b"", False), (over, False)):
+        r = _replay_decode_one({**args, "undecodable": und}, plain0)
+        if r:
+            return r
+    return None
+
+
+def _replay_decode_one(args: dict, plain0: bytes) -> str | None:
+    enc = _G if args["gzip"] else _Z
+    has_cap = args["has_cap"]
+    cap = args["cap"] + _K if has_cap else None
+    plain = plain0 + b"\x00" * _K
+    n, cl = len(args["data"]) + _K, args["cl"] + _K
+    frame = cod.compress(enc, plain)
+    if args["undecodable"]:
+        frame = frame[:10] + b"\xff" * 12  # valid magic, corrupt stream
+    if len(frame) > n:
+        return None
+    body = frame.ljust(n, b"\x00")  # both codecs ignore bytes after the end of the frame
+    # the counterexample's own framing first, then the plain Content-Length framing (the decoder contract
+    # stub ignores the wire bytes, Falcon 4 serves none without Content-Length)
+    for has_cl, dech in ((args["has_cl"], args["dechunked"]), (True, False)):
+        wire = min(cl, n) if has_cl else (n if dech else 0)
+        if wire < len(frame):
+            continue
+        if has_cap and ((cl > cap) if has_cl else (wire > cap)):
+            want: tuple[int, ...] = (413,)
+        elif args["undecodable"]:
+            # (a zstd header that still declares a size over the cap may be refused up front)
+            want = (400, 413) if has_cap and len(plain) > cap else (400,)
+        else:
+            want = (413,) if has_cap and len(plain) > cap else (200,)
+        got = _real_request(cap, None, _RPC_PATH, body, cl if has_cl else None, dech, enc.value)
+        what = (
+            f"max_request_bytes={cap}, {wire}-byte {enc.value} body decoding to {len(plain)} bytes"
+            f"{' (corrupt)' if args['undecodable'] else ''}, Content-Length {cl if has_cl else 'absent'}"
+        )
+        r = _mismatch(what, got, want, plain, cap)
+        if r:
+            return r
+    return None
+
+
 def _replay_exempt(args: dict) -> str | None:
     cap = 64
     app = _build_app(cap)
@@ -348,31 +542,33 @@ def _replay_exempt(args: dict) -> str | None:
     for prefix in _EXEMPT:
         for path in (prefix, prefix + "/x"):
             for method in ("GET", "POST"):
-                status, _payload, pulled = _wsgi_call(app, method, path, body, {"Content-Encoding": "gzip"})
-                if pulled > cap + 1 and status != 413:
-                    out.append(f"{method} {path}: {pulled} bytes pulled, status {status}")
+                outcome, pulled = _real_pipeline_pull(app, method, path, body, {"Content-Encoding": "gzip"})
+                if pulled > cap + 1:
+                    status, _payload, _ = _wsgi_call(app, method, path, body, {"Content-Encoding": "gzip"})
+                    out.append(f"{method} {path}: request middlewares read {pulled} bytes into memory ({outcome}; the app answers {status})")
     if out:
-        ctl, _, ctl_pulled = _wsgi_call(app, "POST", _RPC_PATH, body, {"Content-Encoding": "gzip"})
-        return f"max_request_bytes={cap}, {len(body)}-byte gzip-labelled body: " + "; ".join(out[:4]) + f" (same body on {_RPC_PATH}: status {ctl}, {ctl_pulled} bytes pulled)"
+        ctl, ctl_pulled = _real_pipeline_pull(app, "POST", _RPC_PATH, body, {"Content-Encoding": "gzip"})
+        return f"max_request_bytes={cap}, {len(body)}-byte gzip-labelled body: " + "; ".join(out[:4]) + f" (same body on {_RPC_PATH}: {ctl}, {ctl_pulled} bytes read)"
     return None
 
 
 def _real_truncated(codec: str, plain: bytes, m: int) -> list[tuple[str, bytes, bytes]]:
     """[(label, truncated frame, full plaintext)] built with the real libraries."""
-    big = c18._stretch(plain or b"\x00", max(len(plain), 1) * 4096)
+    big = plain + c18._LEVEL_PROBE  # ~54 kB of semi-compressible data: a cut leaves a long, non-empty prefix
     out = []
     if codec == "gzip":
-        for p in (plain, big):
+        for p in (big, plain):
             full = cod.compress(cod.Encoding.GZIP, p)
-            out.append((f"gzip member of {len(p)} bytes without its 8-byte trailer", full[:-8], p))
             out.append((f"gzip member of {len(p)} bytes cut in half", full[: len(full) // 2], p))
+            out.append((f"gzip member of {len(p)} bytes without its 8-byte trailer (CRC32, ISIZE)", full[:-8], p))
     else:
-        for p in (plain, big):
+        for p in (big, plain):
             full = _real_zstd.ZstdCompressor(level=3, write_content_size=False).compress(p)
-            out.append((f"size-less zstd frame of {len(p)} bytes without its last byte", full[:-1], p))
             co = _real_zstd.ZstdCompressor(level=3).compressobj()
             multi = b"".join(co.compress(p[i : i + 1024]) + co.flush(_real_zstd.COMPRESSOBJ_FLUSH_BLOCK) for i in range(0, len(p), 1024)) + co.flush()
-            out.append((f"streamed zstd frame of {len(p)} bytes cut in half", multi[: len(multi) // 2], p))
+            if _real_zstd.get_frame_parameters(multi).content_size in (-1, c18._UNKNOWN):
+                out.append((f"streamed (size-less) zstd frame of {len(p)} bytes cut in half", multi[: len(multi) // 2], p))
+            out.append((f"size-less zstd frame of {len(p)} bytes without its last byte", full[:-1], p))
     return out
 
 
@@ -396,7 +592,7 @@ def _replay_truncated(codec: str, args: dict) -> str | None:
                 via = f"; middleware answered {e.status}"
             return (
                 f"decompress({enc.name}, <{label}>, max_output_size={c}) returned {len(got)} bytes "
-                f"({'the whole plaintext, integrity trailer never checked' if got == full else 'a strict prefix of the plaintext'}) instead of raising" + via
+                f"({'the whole plaintext although the end of the frame is missing' if got == full else 'a strict prefix of the plaintext'}) instead of raising" + via
             )
     return None
 
@@ -409,7 +605,8 @@ _BLANKS: list[str | None] = [None, "", " ", " \t"]
 
 
 @cond(q=60, t=300, stubs=_STUBS[1:], encoded=[mwm._MaxRequestBytesMiddleware.process_request, mwm._CompressionMiddleware.process_request, rsp._get_request_stream],
-      bound=f"body len<={_NB}, Content-Length None|0..{_NB + 2}, cap 0..{_NB + 1}, no coding named")
+      bound=f"body len<={_NB}, Content-Length None|0..{_NB + 2}, cap 0..{_NB + 1}, no coding named",
+      replay=_replay_passthrough, signature=lambda a, c: "C17:wire-cap-or-passthrough")
 def wire_cap_and_passthrough(data: bytes, has_cl: bool, cl: int, cap: int, dechunked: bool, blank: int) -> bool:
     """
     pre: len(data) <= _NB and 0 <= cl <= _NB + 2 and 0 <= cap <= _NB + 1 and 0 <= blank <= 3
@@ -462,36 +659,26 @@ _Z, _G = cod.Encoding.ZSTD, cod.Encoding.GZIP
 _DEC_SETS = [(), (_G,), (_Z,), (_Z, _G)]
 
 
-def _pad_class(p: str) -> int:
-    """0 = empty or HTTP optional whitespace, 1 = a non-space character, 2 = some other (Unicode) white space."""
-    if p == "" or p == " " or p == "\t":
-        return 0
-    if not p.isspace():
-        return 1
-    return 2
+_OWS = ["", " ", "\t"]
 
 
 @cond(q=60, t=300, stubs=_STUBS, encoded=[mwm._CompressionMiddleware.process_request],
-      bound="codec and 12 non-codec tokens x 4 case variants, any 0..1-char padding each side, every decode subset of {zstd,gzip}")
-def coding_token_mapping(which: int, variant: int, lpad: str, rpad: str, dz: bool, dg: bool) -> bool:
+      bound="codec and 12 non-codec tokens x 4 case variants x optional SP/HTAB on either side, every decode subset of {zstd,gzip}",
+      replay=_replay_token, signature=lambda a, c: "C17:coding-token:" + str(_TOKENS[a["which"]][1] or "unknown"))
+def coding_token_mapping(which: int, variant: int, lp: int, rp: int, dz: bool, dg: bool) -> bool:
     """
-    pre: 0 <= which < len(_TOKENS) and 0 <= variant <= 3 and len(lpad) <= 1 and len(rpad) <= 1
+    pre: 0 <= which < len(_TOKENS) and 0 <= variant <= 3 and 0 <= lp <= 2 and 0 <= rp <= 2
     post: _
     """
     texts, codec = _TOKENS[which]
-    header = lpad + texts[variant] + rpad
-    decode = _decode_set(dz, dg)
+    header = _OWS[lp] + texts[variant] + _OWS[rp]
+    # the decode set only matters when the token names a codec
+    decode = _decode_set(dz, dg) if codec is not None else _DEC_SETS[3]
     _set_cap(_PIPE, _SENTINEL)
     _set_decode(_PIPE, decode)
     _Dec.plain, _Dec.undecodable = _PLAIN, False
     req = _mk_req(_RPC_PATH, _WIRE, True, len(_WIRE), False, header)
     status, handed = _run(_PIPE, req)
-    lc, rc = _pad_class(lpad), _pad_class(rpad)
-    if lc == 2 or rc == 2:
-        return status in (200, 415)  # exotic white space: either reading is acceptable, nothing else is
-    if lc == 1 or rc == 1:
-        # a codec name glued to another character names no codec
-        return status == 415 if codec is not None else status in (200, 415)
     if codec is None:
         return status == 415 and _Dec.calls == 0
     enc = _ENC_BY_NAME[codec]
@@ -500,28 +687,54 @@ def coding_token_mapping(which: int, variant: int, lpad: str, rpad: str, dz: boo
     return status == 200 and handed == _PLAIN and _Dec.calls == 1 and _Dec.enc is enc and _Dec.data == _WIRE and _Dec.cap == _SENTINEL
 
 
-@cond(q=60, t=300, stubs=_STUBS, encoded=[mwm._CompressionMiddleware.process_request], bound="Content-Encoding = any string len<=3 (shorter than every codec name)")
-def coding_short_freeform(ce: str, dz: bool, dg: bool) -> bool:
+@cond(q=60, t=300, stubs=_STUBS, encoded=[mwm._CompressionMiddleware.process_request],
+      bound="a codec name with ANY one character glued to its left or right", replay=_replay_glued, signature=lambda a, c: "C17:coding-token:glued")
+def coding_glued_character(which: int, upper: bool, left: bool, pad: str) -> bool:
     """
-    pre: len(ce) <= 3
+    pre: 0 <= which < len(_CODEC_NAMES) and len(pad) == 1
+    post: _
+    """
+    name = _CODEC_NAMES[which]
+    if upper:
+        name = name.upper()
+    header = (pad + name) if left else (name + pad)
+    _set_cap(_PIPE, _SENTINEL)
+    _set_decode(_PIPE, _DEC_SETS[3])
+    _Dec.plain, _Dec.undecodable = _PLAIN, False
+    req = _mk_req(_RPC_PATH, _WIRE, True, len(_WIRE), False, header)
+    status, handed = _run(_PIPE, req)
+    if pad == " " or pad == "\t":  # HTTP optional white space
+        return status == 200 and handed == _PLAIN and _Dec.enc is _ENC_BY_NAME[_CODEC_NAMES[which]]
+    if pad.strip() == "":  # other (Unicode) white space: either reading is acceptable, nothing else
+        return status in (200, 415)
+    return status == 415 and _Dec.calls == 0  # a codec name glued to another character names no codec
+
+
+_LF = pick(2, 3)
+
+
+@cond(q=60, t=400, stubs=_STUBS, encoded=[mwm._CompressionMiddleware.process_request], bound="Content-Encoding = any string len<=%d (shorter than every codec name)" % _LF,
+      replay=_replay_freeform, signature=lambda a, c: "C17:coding-token:short")
+def coding_short_freeform(ce: str) -> bool:
+    """
+    pre: len(ce) <= _LF
     post: _
     """
     _set_cap(_PIPE, _SENTINEL)
-    _set_decode(_PIPE, _decode_set(dz, dg))
+    _set_decode(_PIPE, _DEC_SETS[3])
     _Dec.plain, _Dec.undecodable = _PLAIN, False
     req = _mk_req(_RPC_PATH, _WIRE, True, len(_WIRE), False, ce)
     status, handed = _run(_PIPE, req)
     if _Dec.calls != 0:
         return False  # nothing this short names a codec
-    if all(c == " " or c == "\t" for c in ce):
+    if ce.strip() == "":  # nothing but white space: no coding named
         return status == 200 and handed == _WIRE
-    if any(not c.isspace() for c in ce):
-        return status == 415
-    return status in (200, 415)
+    return status == 415
 
 
 @cond(q=60, t=300, stubs=_STUBS, encoded=[mwm._MaxRequestBytesMiddleware.process_request, mwm._CompressionMiddleware.process_request, rsp._get_request_stream],
-      bound=f"wire len<={_NB}, decoded len<={_NP}, Content-Length None|0..{_NB + 2}, cap 0..{_NB + 1} or unset, codec zstd|gzip, decodable/undecodable")
+      bound=f"wire len<={_NB}, decoded len<={_NP}, Content-Length None|0..{_NB + 2}, cap 0..{_NB + 1} or unset, codec zstd|gzip, decodable/undecodable",
+      replay=_replay_decode, signature=lambda a, c: "C17:decode-outcome")
 def decode_outcome_mapping(data: bytes, plain: bytes, has_cl: bool, cl: int, has_cap: bool, cap: int, dechunked: bool, gzip: bool, undecodable: bool, exc: int) -> bool:
     """
     pre: len(data) <= _NB and len(plain) <= _NP and 0 <= cl <= _NB + 2 and 0 <= cap <= _NB + 1 and 0 <= exc < len(_CORRUPT_EXCS)
@@ -532,7 +745,7 @@ def decode_outcome_mapping(data: bytes, plain: bytes, has_cl: bool, cl: int, has
         _set_cap(pipe, cap)
     _set_decode(pipe, _FACTORY_DECODE)
     enc = _G if gzip else _Z
-    _Dec.plain, _Dec.undecodable, _Dec.exc = plain, undecodable, _CORRUPT_EXCS[exc]
+    _Dec.plain, _Dec.undecodable, _Dec.exc_idx = plain, undecodable, exc
     req = _mk_req(_RPC_PATH, data, has_cl, cl, dechunked, enc.value)
     status, handed = _run(pipe, req)
     wire = _wire_len(len(data), has_cl, cl, dechunked)
@@ -552,17 +765,18 @@ def decode_outcome_mapping(data: bytes, plain: bytes, has_cl: bool, cl: int, has
 
 
 _IDENT = _variants(cod.Encoding.IDENTITY.value)
-_OWS = ["", " ", "\t"]
+_PAD_PAIRS = [(0, 0), (1, 0), (0, 2), (1, 1)]  # indexes into _OWS
 
 
 @cond(q=60, t=300, stubs=_STUBS[1:], encoded=[mwm._CompressionMiddleware.process_request, cod.decompress],
       bound=f"'identity' in 4 case variants with optional OWS, body len<={_NB}, Content-Length None|0..{_NB + 2}, cap 0..{_NB + 1}",
       replay=_replay_identity, signature=lambda a, c: "C17:identity-coding-refused-415")
-def identity_coding_passes_through(data: bytes, has_cl: bool, cl: int, cap: int, dechunked: bool, variant: int, lp: int, rp: int) -> bool:
+def identity_coding_passes_through(data: bytes, has_cl: bool, cl: int, cap: int, dechunked: bool, variant: int, pad: int) -> bool:
     """
-    pre: len(data) <= _NB and 0 <= cl <= _NB + 2 and 0 <= cap <= _NB + 1 and 0 <= variant <= 3 and 0 <= lp <= 2 and 0 <= rp <= 2
+    pre: len(data) <= _NB and 0 <= cl <= _NB + 2 and 0 <= cap <= _NB + 1 and 0 <= variant <= 3 and 0 <= pad <= 3
     post: _
     """
+    lp, rp = _PAD_PAIRS[pad]
     _set_cap(_PIPE, cap)
     _set_decode(_PIPE, _FACTORY_DECODE)
     _Dec.plain, _Dec.undecodable = b"", True  # identity must not need a decoder
@@ -594,6 +808,54 @@ def exempt_path_allocation_guard(data: bytes, cl: int, cap: int, which_path: int
     _run(_PIPE, req)
     # whatever the answer, the server must not have materialised more than cap+1 bytes of the wire body
     return req.bounded_stream.pulled <= cap + 1
+
+
+def _replay_drain(args: dict) -> str | None:
+    cap = 64
+    app = _build_app(cap)
+    body = bytes(range(256)) * 800  # 200 KiB: more than cap + one 64 KiB drain chunk
+    env = falcon.testing.create_environ(path=_RPC_PATH, method="POST", headers={"Content-Type": "application/vnd.apache.arrow.stream"}, body=body)
+
+    class _Biggest(_CountingInput):
+        biggest = 0
+
+        def read(self, size: int = -1) -> bytes:
+            out = super().read(size)
+            self.biggest = max(self.biggest, len(out))
+            return out
+
+    inp = _Biggest(body)
+    env["wsgi.input"] = inp
+    status: list = []
+    b"".join(app(env, lambda s, h, e=None: status.append(s)))  # type: ignore[operator]
+    if inp.biggest > cap + 1 + 64 * 1024:
+        return (
+            f"max_request_bytes={cap}: POST {_RPC_PATH} with Content-Length {len(body)} is answered {status[0]}, and the server then reads "
+            f"the refused body with ONE wsgi.input.read({inp.biggest}) — the whole body is materialised after the 413"
+        )
+    return None
+
+
+@cond(q=60, t=300, stubs=_STUBS[1:] + ["bounded_stream.exhaust() := discards the rest of the body in library-sized chunks (Falcon BoundedStream contract)"],
+      encoded=[mwm._MaxRequestBytesMiddleware.process_request, mwm._CompressionMiddleware.process_request, mwm._DrainRequestMiddleware.process_response],
+      bound=f"body len<={_NB}, Content-Length None|0..{_NB + 2}, cap 0..{_NB + 1}, no coding / gzip named", replay=_replay_drain,
+      signature=lambda a, c: "C17:drain-materialises-refused-body")
+def refused_body_is_not_materialised(data: bytes, has_cl: bool, cl: int, cap: int, dechunked: bool, gzip: bool) -> bool:
+    """
+    pre: len(_DRAIN) == 1 and len(data) <= _NB and 0 <= cl <= _NB + 2 and 0 <= cap <= _NB + 1
+    post: _
+    """
+    _set_cap(_PIPE, cap)
+    _set_decode(_PIPE, _FACTORY_DECODE)
+    _Dec.plain, _Dec.undecodable = b"", False
+    req = _mk_req(_RPC_PATH, data, has_cl, cl, dechunked, _G.value if gzip else None)
+    status, _handed = _run(_PIPE, req)
+    # Falcon runs every process_response, also after a refusal: the factory registers the drain middleware
+    mwm._DrainRequestMiddleware.process_response(_DRAIN[0], req, None, None, status == 200)  # type: ignore[arg-type]
+    if _MODEL_ERRORS:
+        raise HarnessModelError(_MODEL_ERRORS[0])
+    # no single object larger than cap+1 bytes of request body was ever created, refused or not
+    return req.bounded_stream.biggest <= cap + 1
 
 
 def _truncated(codec: str, plain: bytes, m: int, has_cap: bool, cap: int, declared: int, pend: int) -> bool:
